@@ -110,7 +110,13 @@ class ShuffleBase(Expr):
                 projection = [projection]
 
             partitioning_index = self.partitioning_index
-            if isinstance(partitioning_index, (str, int)):
+            if isinstance(partitioning_index, Expr) or (
+                "index_shuffle" in self._parameters and self.index_shuffle
+            ):
+                # keyed by another collection or by the index: the shuffle
+                # itself doesn't need any column of the frame
+                partitioning_index = []
+            elif not isinstance(partitioning_index, list):
                 partitioning_index = [partitioning_index]
 
             target = self.frame
